@@ -43,6 +43,30 @@ def run(chk):
                f"mesh={v.show(a.get('mesh'))}, nvdim={v.show(a.get('nvdim'))}, unit={v.show(a.get('unit'))}, valid={v.show(a.get('valid'))}",
                v.f, r)
 
+    if not cm.returned_news(v):
+        # the norm is not constructed here but obtained from another Field operation: does that operation's result carry the
+        # unit at all?  (results of the arithmetic operators and of dot / cross / angle are built without unit=)
+        for r in v.returns():
+            if r.value is None:
+                continue
+            t = v.ev.term(r.value, at=r)
+            h = v.ctx.head_of(t)
+            callee = None
+            if h and h[0] in ("pow", "binop"):
+                callee = "field.Field._apply_operator"
+            elif t.single_atom() is None and not t.is_const():
+                callee = "field.Field._apply_operator"        # arithmetic on fields
+            elif h and h[0] == "call" and str(h[1]).startswith("Field."):
+                m = repo.resolve_method(FIELD, str(h[1])[6:])
+                callee = m.qual if m is not None else None
+            if callee and repo.has_func(callee):
+                w = FV(repo, callee)
+                news = cm.returned_news(w)
+                if news and all(a.get("unit") is None for r_, a in news):
+                    chk.ob("field.Field.norm::metadata", False, "C15.D1",
+                           f"the norm is returned as `{v.src(r.value)}`, i.e. built by {callee}, whose result is constructed "
+                           "without unit=: the norm field loses the unit of the field", v.f, r)
+
     chk.rule("C15.D2", "norm setter: divide by the current norm only where it is non-zero (zero cells stay zero through a "
                        "zero-initialised out array), then multiply by the requested norm converted to shape (*n, 1); None leaves "
                        "the values alone")
